@@ -33,6 +33,7 @@ class Ctx:
             module_overrides=module_overrides, vc=vc)
         for k, names in info['cut'].items():
             specs[k]['names'] = names
+            specs[k]['inplace'] = info.get('inplace', {}).get(k, [])
         info['stubs'] = sorted(
             list(overrides or {}) +
             [f'{a}.{n}' for a, d in (module_overrides or {}).items() for n in d])
